@@ -86,6 +86,16 @@ impl FakeNode {
             match want.as_object() {
                 None => true,
                 Some(o) => o.iter().all(|(k, v)| {
+                    if k == "key_kind" {
+                        // "state" | "attempts": fourth component of a trampoline datastore key
+                        return c.params["key"].as_array().and_then(|a| a.get(3)).and_then(|x| x.as_str()) == v.as_str();
+                    }
+                    if k == "string_contains" {
+                        return c.params["string"].as_str().map(|s| s.contains(v.as_str().unwrap_or(""))).unwrap_or(false);
+                    }
+                    if k == "has_generation" {
+                        return c.params["generation"].is_null() != v.as_bool().unwrap_or(false);
+                    }
                     let have = &c.params[k];
                     match (have.as_str(), v.as_str()) {
                         (Some(a), Some(b)) => a.eq_ignore_ascii_case(b),
